@@ -1099,3 +1099,8 @@ Lemma reply_one_frame_limits v :
 Proof.
   intros Hr Hd. rewrite <- (app_nil_r (encode v)) at 1. now apply decode_roundtrip.
 Qed.
+
+Lemma reply_one_frame_ex v :
+  repr I64_MAX v ->
+  exists v', decode_with I64_MAX (depth v) (encode v) = Done v' [] /\ v' = sanitize v.
+Proof. intros H. exists (sanitize v). split; [now apply reply_one_frame|reflexivity]. Qed.
